@@ -79,6 +79,9 @@ func newCtx(prop, tier string, p *Prog) *Ctx {
 
 func (c *Ctx) add(rule, site string, pos token.Pos, st Status, detail string) *Obligation {
 	rule = c.mapRule(rule)
+	if rule == "" { // a rule group re-evaluated for another property with this rule left out
+		return &Obligation{}
+	}
 	key := c.Prop + "." + rule + " / " + site
 	if n := c.keys[key]; n > 0 {
 		c.keys[key] = n + 1
@@ -132,6 +135,9 @@ func (c *Ctx) Rule(rule, text string) {
 // Expect fails when a rule matched fewer instances than confirmed by hand (vacuity guard).
 func (c *Ctx) Expect(rule string, min int) {
 	rule = c.mapRule(rule)
+	if rule == "" {
+		return
+	}
 	n := 0
 	for _, o := range c.Obls {
 		if o.Rule == c.Prop+"."+rule {
